@@ -9,6 +9,7 @@ import (
 	"go/token"
 	"go/types"
 	"sort"
+	"strconv"
 	"strings"
 
 	"golang.org/x/tools/go/ssa"
@@ -316,6 +317,8 @@ func checkC10(c *Ctx) {
 	reach := c.U.reach(roots.reader)
 	runEP(c.U, r, "EP/source", ops, fnSet(reach))
 	c.controlsEP()
+	// "does not panic": the read path never dereferences state that only a writer has
+	runNilState(c, "NS", "reader")
 	n := len(c.U.TC)
 	r.Analysed["functions_reachable_from_reader_roots"] = len(reach)
 	r.floor("EP/source/primitive", 5+n, "getMetaDataSize x2, ReadMetaData x2, PageHeader, pageData x3 (+readCounter.Read) + NewParquetReader Seek per package")
@@ -532,8 +535,11 @@ func footerGate(c *Ctx, roots *srcRoots) {
 				continue
 			}
 			isMagic := func(v ssa.Value) bool {
-				k, ok := v.(*ssa.Const)
-				return ok && k.Value != nil && k.Value.Kind() == constant.String && constant.StringVal(k.Value) == "PAR1"
+				if k, ok := v.(*ssa.Const); ok {
+					return k.Value != nil && k.Value.Kind() == constant.String && constant.StringVal(k.Value) == "PAR1"
+				}
+				// a constant byte-array variable holding the magic
+				return symExpr(v, 0) == strconv.Quote("PAR1")
 			}
 			if !isMagic(bo.X) && !isMagic(bo.Y) {
 				continue
